@@ -67,6 +67,8 @@ EXTRA_MODELS = [
     (r"^<&\[u32\] as IntoIterator>::into_iter$", m_slice_into_iter),
     (r"^core::slice::<impl \[u32\]>::iter$", m_slice_into_iter),
 ]
+import itermodels  # noqa: E402
+EXTRA_MODELS = EXTRA_MODELS + itermodels.MODELS       # std iterator idioms over concrete-length sequences (lower priority)
 
 
 def builder_methods(mf):
